@@ -711,6 +711,9 @@ def _elements_to_kwargs(elements, fix_texture, image, prefer_color=None):
         from ..path.exchange.misc import edges_to_path
 
         edges = structured_to_unstructured(elements["edge"]["data"])
+        if len(edges) > 0 and (edges.min() < 0 or edges.max() >= len(kwargs["vertices"])):
+            # the traversal below allocates by the largest index it is given
+            raise ValueError("PLY `edge` element references vertices that don't exist!")
         kwargs.update(edges_to_path(edges, kwargs["vertices"]))
 
     return kwargs
